@@ -188,6 +188,11 @@ def run_asgi_case(ctx, r, method, headers, edges, zerocopy):
         ctx.mon("fault-prefix")
         for w, d in automata.check_asgi_http(fres.sent, zerocopy_offered=zerocopy, prefix=True, edges=edges):
             ctx.violation(f"asgi|fault|{w}|{r['cls']}", dict(case, fault=f"send-fails-at-{n}"), d)
+        if not fres.injected:
+            # the response finished in fewer sends than the reference run (keep-alive pings are a matter of
+            # wall time): the fault point was never reached, nothing to judge
+            ctx.count("send-fault-point-not-reached")
+            continue
         ctx.mon("fault-exception-identity")
         ok = isinstance(fres.exc, OSError) and "injected" in str(fres.exc)
         if expect_exc and isinstance(fres.exc, recipes.BodyError):
@@ -269,6 +274,42 @@ def run(ctx):
                 for w, d in probs:
                     ctx.violation(f"{iface}|reuse|{w}|{r['cls']}", case, d)
                 ctx.case((iface, "reuse", repr(r), method, repr(hdrs), n))
+    # ---- the body producer of a file response is the file: it vanishes (or is replaced by a shorter one) between the
+    #      construction of the response and the request; whatever is emitted must still be a legal prefix
+    import shutil
+    vdir = ctx.tmpdir("vanishing")
+    for i, (r, method, hdrs) in enumerate(todo):
+        if r["cls"] != "File" or i % 2:
+            continue
+        for iface, ns in (("wsgi", wsgi), ("asgi", asgi)):
+            for fault in ("removed", "truncated"):
+                tmp = os.path.join(vdir, "f" + os.path.splitext(r["path"])[1])
+                shutil.copyfile(r["path"], tmp)
+                random.seed(77)
+                try:
+                    obj = recipes.response_from(ns, dict(r, path=tmp))
+                except Exception:
+                    continue
+                if fault == "removed":
+                    os.unlink(tmp)
+                else:
+                    with open(tmp, "wb") as f:
+                        f.write(b"x")
+                case = {"recipe": r, "method": method, "headers": hdrs, "iface": iface, "file_fault": fault + "-after-construction"}
+                req = drivers.Req(method=method, headers=hdrs)
+                if iface == "wsgi":
+                    res = drivers.run_wsgi(obj, drivers.to_environ(req))
+                    probs = automata.check_wsgi(res.events, prefix=True, edges=edges)
+                else:
+                    res = drivers.run_asgi(obj, drivers.to_scope(req))
+                    probs = automata.check_asgi_http(res.sent, prefix=True, edges=edges)
+                ctx.mon("fault-prefix")
+                ctx.count("file-fault-" + fault)
+                for w, d in probs:
+                    ctx.violation(f"{iface}|file-fault|{w}|{r['cls']}", case, d)
+                ctx.case((iface, "file-fault", fault, repr(r), method, repr(hdrs)))
+                if os.path.exists(tmp):
+                    os.unlink(tmp)
     ctx.extra["automaton_edges"] = dict(edges)
     ctx.monitors["header-hygiene-contract(icontract)"] = contracts.COUNTS["list_headers.post"]
 
